@@ -23,6 +23,10 @@
     c05.rollback                         marked tables back to their committed state → ok m=
     c05.committed N                           the committed table as text → dump of texts
     c05.dump N                                                           → dump
+    c08.copysites                        the writes of the data-changing functions whose level is SHARED between a working
+                                         copy and the cached table in the regenerated copy facts → `ok` | site | site …
+    c08.copydepth                        the levels of a working copy that the reviewed depth calls its own and the
+                                         regenerated copy facts do not → `ok` | level: fact | …
   F (field list) = `-` (all columns) or `k f_1…f_k`.
 
   result = `ok T:count,… m=<marked tables, sorted> dump…` | `E<code> m=… dump…` (dumps of the target tables).
@@ -34,6 +38,7 @@
 import Csvq.Model.Proto
 import Csvq.Model.Sort
 import Csvq.Model.Dml
+import Csvq.Model.CopySites
 namespace Csvq.Drive.C05
 open Csvq Csvq.Proto Csvq.Dml
 
@@ -345,6 +350,10 @@ def step (s : State) (cmd : String) (args : List String) : State × String :=
         ({ s with tables := setOrAdd s.tables n t, committed := setOrAdd s.committed n t,
                   marks := s.marks.filter (· != n) }, dumpTable n t)
   | "dump", [n] => (s, dumpOf s.tables n)
+  | "copysites", [] =>
+    (s, if Csvq.CopySites.current.isEmpty then "ok" else String.intercalate " | " Csvq.CopySites.current)
+  | "copydepth", [] =>
+    (s, if Csvq.CopySites.currentDepth.isEmpty then "ok" else String.intercalate " | " Csvq.CopySites.currentDepth)
   | "committed", [n] =>
     match lookupT s.committed n with
     | none => (s, n ++ "?")
